@@ -258,14 +258,14 @@ func runCap(c CapCase, cs *kit.CaseStats) error {
 			return fmt.Errorf("wave %d: %d inbound peers were connected at the same time, MaxInboundPeers is %d (%d simultaneous handshakes, %d completed on the dialers' side)", w, in, c.MaxIn, c.NIn, okConn.Load())
 		}
 		// the other half: slots the limit leaves open are given to peers that ask
-		// for them. Every dial has reached the syncer (the dialers are back), an
-		// arrival is turned away only while MaxInboundPeers inbound peers are
-		// connected, so at rest min(MaxIn, NIn) inbound peers are connected -
-		// whatever the number of outbound peers.
-		if dialTimeouts.Load() == 0 {
-			want, in, out := min(c.MaxIn, c.NIn), 0, 0
-			for deadline := time.Now().Add(10 * time.Second); ; time.Sleep(time.Millisecond) {
-				in, out = 0, 0
+		// for them. In a burst that is no schedule-independent fact (the syncer
+		// gives every handshake a deadline, and on a starved machine any number of
+		// the simultaneous handshakes can run into it), so what a burst left free
+		// is only recorded - and then single peers arrive, one at a time, until
+		// the limit is reached: each of them finds a free slot on the syncer's own
+		// list and must be admitted, whatever the number of outbound peers.
+		{
+			rawIn := func() (in, out int) {
 				for _, p := range srv.S.Peers() {
 					if p.Inbound {
 						in++
@@ -273,20 +273,47 @@ func runCap(c CapCase, cs *kit.CaseStats) error {
 						out++
 					}
 				}
-				if in >= want || time.Now().After(deadline) {
+				return
+			}
+			in, out := rawIn()
+			for deadline := time.Now().Add(2 * time.Second); in < min(c.MaxIn, c.NIn) && time.Now().Before(deadline); time.Sleep(time.Millisecond) {
+				in, out = rawIn() // (the last handshakes of the burst may still be on their way into the list)
+			}
+			if in < min(c.MaxIn, c.NIn) {
+				cs.Class("burst-left-inbound-slots-free(observed)")
+			}
+			for fill := 0; in < c.MaxIn && fill < 4; fill++ {
+				ip := fmt.Sprintf("127.52.%d.%d", 1+w, 1+fill)
+				gp := &p2px.GWPeer{Genesis: genesisID, UniqueID: p2px.DetUniqueID("cap-fill", w, fill), IP: ip, NetAddress: fmt.Sprintf("%s:%d", ip, 3700+8*w+fill)}
+				dialers = append(dialers, gp)
+				t0 := time.Now()
+				conn, err := gp.Dial(context.Background(), srv.Addr(), 20*time.Second)
+				admitted, decided := false, err != nil
+				if err == nil {
+					go conn.Serve(serveQuiet)
+					for deadline := time.Now().Add(10 * time.Second); !decided && time.Now().Before(deadline); time.Sleep(200 * time.Microsecond) {
+						if cerr := conn.Call(&gateway.RPCShareNodes{}, 5*time.Second); cerr != nil {
+							decided = true
+						} else if srv.HasPeer(gp.NetAddress) {
+							admitted, decided = true, true
+						}
+					}
+				}
+				in2, out2 := rawIn()
+				if !decided || (!admitted && time.Since(t0) > 3*time.Second) {
+					cs.Class("fill-arrival-undecided-or-slow(not-judged)")
 					break
 				}
+				if !admitted && in2 < c.MaxIn && in < c.MaxIn {
+					close(stopSampler)
+					samplerDone.Wait()
+					return fmt.Errorf("wave %d: after the burst of %d simultaneous dials %d of %d inbound slots were taken; a single peer arriving then was turned away within %v although the syncer's own list showed a free inbound slot before (%d inbound, %d outbound) and after (%d inbound, %d outbound) - dial error: %v", w, c.NIn, in, c.MaxIn, time.Since(t0).Round(time.Millisecond), in, out, in2, out2, err)
+				}
+				if admitted && out > 0 {
+					cs.Class("inbound-slot-taken-with-outbound-peers-present")
+				}
+				in, out = in2, out2
 			}
-			if in < want {
-				close(stopSampler)
-				samplerDone.Wait()
-				return fmt.Errorf("wave %d: %d peers dialled at the same moment against MaxInboundPeers %d, but only %d inbound peer(s) are connected 10 s after the last dial returned (%d handshakes completed on the dialers' side; %d outbound peer(s) are connected at the same time)", w, c.NIn, c.MaxIn, in, okConn.Load(), out)
-			}
-			if want > 0 && out > 0 {
-				cs.Class("inbound-slots-filled-with-outbound-peers-present")
-			}
-		} else {
-			cs.Class("dial-timeout(admission-not-judged)")
 		}
 		if w+1 < c.Waves {
 			// the dialers of this wave go away; the next wave must find the same cap
@@ -365,9 +392,21 @@ func capScript(c CapCase, cs *kit.CaseStats, srv *p2px.SyncerNode, genesisID typ
 		}
 	}()
 	listed := func(addr string) bool { return srv.HasPeer(addr) }
+	// a peer that hung up keeps its slot until the syncer has taken it off its
+	// list (that happens asynchronously, when its connection's goroutine ends): the
+	// slot counts as free only once the syncer's own list no longer has the peer,
+	// whatever the peer's error state
+	held := func(addr string) bool {
+		for _, p := range srv.S.Peers() {
+			if p.Addr() == addr {
+				return true
+			}
+		}
+		return false
+	}
 	gone := func(addr string) bool {
 		for deadline := time.Now().Add(closeWatchdog); time.Now().Before(deadline); time.Sleep(200 * time.Microsecond) {
-			if !listed(addr) {
+			if !held(addr) {
 				return true
 			}
 		}
@@ -409,7 +448,7 @@ func capScript(c CapCase, cs *kit.CaseStats, srv *p2px.SyncerNode, genesisID typ
 			removed := false
 			for deadline := time.Now().Add(closeWatchdog); !removed && time.Now().Before(deadline); time.Sleep(time.Millisecond) {
 				gp.CloseConns()
-				removed = !listed(gp.NetAddress)
+				removed = !held(gp.NetAddress)
 			}
 			if !removed {
 				return nil, "outbound-peer-not-removed-after-disconnect"
@@ -428,7 +467,16 @@ func capScript(c CapCase, cs *kit.CaseStats, srv *p2px.SyncerNode, genesisID typ
 			ip := fmt.Sprintf("127.51.%d.%d", 1+k/8, 1+k%8)
 			gp := &p2px.GWPeer{Genesis: genesisID, UniqueID: p2px.DetUniqueID("cap-script-in", k), IP: ip, NetAddress: fmt.Sprintf("%s:%d", ip, 3500+k)}
 			wantAdmit := len(ins) < c.MaxIn
+			// the model and the syncer's own list must agree on the inbound peers
+			// before the arrival is judged
 			inBefore, outBefore := counts()
+			for deadline := time.Now().Add(closeWatchdog); inBefore != len(ins) && time.Now().Before(deadline); time.Sleep(200 * time.Microsecond) {
+				inBefore, outBefore = counts()
+			}
+			if inBefore != len(ins) {
+				return nil, "syncer-and-model-disagree-on-inbound-peers"
+			}
+			t0 := time.Now()
 			conn, err := gp.Dial(context.Background(), srv.Addr(), 20*time.Second)
 			if err != nil {
 				if ne := net.Error(nil); errors.As(err, &ne) && ne.Timeout() {
@@ -455,9 +503,17 @@ func capScript(c CapCase, cs *kit.CaseStats, srv *p2px.SyncerNode, genesisID typ
 			}
 			what := fmt.Sprintf("step %d of %v: a peer arrived while %d inbound peer(s) (MaxInboundPeers %d) and %d outbound peer(s) were connected (counted by the harness: %d admitted inbound peers not yet dropped)", k, c.Script, inBefore, c.MaxIn, outBefore, len(ins))
 			switch {
+			case wantAdmit && !admitted && time.Since(t0) > 3*time.Second:
+				// the syncer gives a handshake 10 s (ConnectTimeout): on a machine this
+				// slow the refusal may be that deadline, not the limit
+				gp.Close()
+				return nil, "script-arrival-slow(handshake-deadline-possible)"
 			case wantAdmit && !admitted:
 				gp.Close()
-				return fmt.Errorf("%s and was turned away although an inbound slot was free (dial error: %v)", what, err), ""
+				if in2, _ := counts(); in2 >= c.MaxIn {
+					return nil, "syncer-and-model-disagree-on-inbound-peers"
+				}
+				return fmt.Errorf("%s and was turned away within %v although an inbound slot was free, before and after, on the syncer's own list (dial error: %v)", what, time.Since(t0).Round(time.Millisecond), err), ""
 			case !wantAdmit && admitted:
 				gp.Close()
 				return fmt.Errorf("%s and was admitted although no inbound slot was free", what), ""
@@ -493,7 +549,7 @@ func capScript(c CapCase, cs *kit.CaseStats, srv *p2px.SyncerNode, genesisID typ
 
 var c18CapProp = kit.Prop[CapCase]{
 	ID:   "C18",
-	Rule: "peer caps: MaxInboundPeers 0..4 against 0..24 scripted gateway peers that dial and handshake at the same moment (1..2 waves), MaxOutboundPeers 0..3 against 0..8 listening candidates in the peer store (peer loop every 5 ms) plus 0..6 concurrent explicit Connect calls. Before the bursts a drawn script of up to 10 single arrivals and departures (inbound dial, explicit outbound Connect, oldest inbound / outbound peer hangs up) is compared step by step with the model: an arriving peer is admitted iff fewer than MaxInboundPeers inbound peers are connected, outbound peers do not count. Oracle: at every 100 µs sample and at rest the number of connected inbound peers <= MaxInboundPeers and the number of outbound peers opened by the peer loop <= MaxOutboundPeers; after every burst min(MaxInboundPeers, arrivals) inbound peers are connected (slots the limit leaves open are given away, whatever the number of outbound peers). Non-trivial = simultaneous handshakes >= 2x(cap+1).",
+	Rule: "peer caps: MaxInboundPeers 0..4 against 0..24 scripted gateway peers that dial and handshake at the same moment (1..2 waves), MaxOutboundPeers 0..3 against 0..8 listening candidates in the peer store (peer loop every 5 ms) plus 0..6 concurrent explicit Connect calls. Before the bursts a drawn script of up to 10 single arrivals and departures (inbound dial, explicit outbound Connect, oldest inbound / outbound peer hangs up) is compared step by step with the model: an arriving peer is admitted iff fewer than MaxInboundPeers inbound peers are connected, outbound peers do not count. Oracle: at every 100 µs sample and at rest the number of connected inbound peers <= MaxInboundPeers and the number of outbound peers opened by the peer loop <= MaxOutboundPeers; after every burst single peers arrive one at a time until the limit is reached, each finding a free slot on the syncer's own list and having to be admitted, whatever the number of outbound peers (what the burst itself left free is only recorded: the syncer's handshake deadline makes that schedule-dependent). Non-trivial = simultaneous handshakes >= 2x(cap+1).",
 	Assumptions: []string{
 		"explicit Syncer.Connect calls are not checked against MaxOutboundPeers by this code base (only peerLoop calls allowConnect for outbound); they are exercised and observed but the cap is asserted only for connections the syncer opens itself",
 	},
